@@ -310,6 +310,26 @@ def project(prop, c, out):
     return {h: _strip(c, _impl_half(c, out[h])) for h in HALVES}
 
 
+def agree(prop, c, pm, pi):
+    """the model's memo table says how many entries the signature cache may hold after the case (one per distinct key); the
+    property bounds the retained state, it does not demand that the cache keeps everything (a bounded cache holds fewer)"""
+    if prop != 'C13':
+        return None
+    for h in HALVES:
+        m, i = pm.get(h), pi.get(h)
+        if m is None or i is None:
+            if m != i:
+                return False
+            continue
+        rest_m = {k: v for k, v in m.items() if k != 'memo'}
+        rest_i = {k: v for k, v in i.items() if k != 'memo'}
+        if not core.matches(core.canon(rest_m), core.canon(rest_i)):
+            return False
+        if 'memo' in m and not (isinstance(i.get('memo'), int) and i['memo'] <= m['memo']):
+            return False
+    return True
+
+
 def label(c, mo):
     return f'history/{c["mode"]}/len={min(len(c["texts"]), 8)}/memo={mo["memo_size"]}'
 
